@@ -86,6 +86,22 @@ impl Pool {
             };
             names.push(nm);
         }
+        // a pair of DISTINCT names with the same dotted presentation: two adjacent labels of a
+        // pool name merged into one label containing a '.' octet
+        if r.chance(1, 3) {
+            if let Some(base) = names.iter().find(|n| n.labels.len() >= 3).cloned() {
+                let mut merged = base.labels[0].octets().to_vec();
+                merged.push(b'.');
+                merged.extend_from_slice(base.labels[1].octets());
+                if let Ok(l) = Label::try_from(&merged[..]) {
+                    let mut ls = vec![l];
+                    ls.extend(base.labels[2..].iter().cloned());
+                    if let Some(alias) = DomainName::from_labels(ls) {
+                        names.push(alias);
+                    }
+                }
+            }
+        }
         Pool { names }
     }
     pub fn name(&self, r: &mut Rng) -> DomainName {
